@@ -1290,6 +1290,7 @@ func runC02(c *Ctx) {
 		return
 	}
 	r := c.R
+	checkErrorConstructorsNonNil(r, p)
 	checkDeserializerBounds(r, p)
 	checkNoSizeDrivenAlloc(r, p)
 	checkInputSlicesBounded(r, p)
